@@ -2,7 +2,8 @@
    Only statements closed by [exact] + Print Assumptions live here. *)
 From Coq Require Import ZArith Bool List.
 From Chibicc Require Import Spec.C11Int Model.ConstFold Proofs.ConstFoldProofs
-     Model.X86Int Model.CodegenInt Gen.CastTable Proofs.CastTableProofs Proofs.CodegenIntProofs.
+     Model.X86Int Model.CodegenInt Gen.CastTable Proofs.CastTableProofs Proofs.CodegenIntProofs
+     Model.ExprGen Proofs.ExprGenProofs.
 Import ListNotations.
 Local Open Scope Z_scope.
 
@@ -68,3 +69,23 @@ Example C01_nonvacuous :
   uac I8 U32 = U32 /\ uac I64 U32 = I64 /\ uac U64 I64 = U64.
 Proof. unfold R, big. vm_compute. repeat split; auto; discriminate. Qed.
 Print Assumptions C01_nonvacuous.
+
+(* the whole tree: for EVERY integer expression - any nesting depth of unary + - ~ !, the ten
+   arithmetic / bitwise / shift operators, the six comparisons, && || ?: , casts and commas over
+   operands of the nine integer types - whose C11 value is defined, the code gen_expr composes
+   (right operand first and pushed, left operand, pop into %rdi, the operator's instructions, the
+   conversions add_type inserts, tests of %rax for && || ?:) started in ANY register state with ANY
+   stack leaves the representation of exactly that C11 value (of the C11 type) in %rax and the
+   stack as it found it *)
+Theorem C01_expr_correct : forall e v, eval e = Some v ->
+  forall s k, exists s', grun (compile e) (s, k) = Some (s', k) /\ R (type_of e) v (rax s').
+Proof. exact compile_correct. Qed.
+Print Assumptions C01_expr_correct.
+
+(* non-vacuity: (1 + (-2L)) && (3u ? (signed char)300 : 18446744073709551615ul > 4) has the value 1, and its code runs *)
+Definition demo_tree := Bin LAnd (Bin Add (Lit I32 1) (Un Neg (Lit I64 2)))
+                                 (Cond (Lit U32 3) (Cast I8 (Lit I32 300)) (Bin OGt (Lit U64 18446744073709551615) (Lit I32 4))).
+Example C01_expr_nonvacuous : eval demo_tree = Some 1 /\
+  option_map (fun st => (rax (fst st), snd st)) (grun (compile demo_tree) ({| rax := 77; rdi := 78; rdx := 79; rcx := 80; f_zf := false; f_cf := true; f_lt := false |}, [5; 6])) = Some (1, [5; 6]).
+Proof. split; vm_compute; reflexivity. Qed.
+Print Assumptions C01_expr_nonvacuous.
